@@ -17,7 +17,8 @@ CLAIMS = {
                   'lock-step (issue/swallow/test events) and the logged result bag is compared with the reference by TLC.',
              technique='TLC model checking of ZogExec + TLC trace validation of recorded real executions (Trace_Exec)', ref='5 C02'),
  'C05': dict(text='TLC checks C05_NonInterference and M_DestAll (catch value iff the node failed; issues off the catching paths equal those of Uncatch(schema)) on the machine; '
-                  'the same predicates are evaluated by TLC on every logged real result, including a catch-heavy random family.',
+                  'the same predicates are evaluated by TLC on every logged real result, including a catch-heavy random family; the destination of every catching node equals the reference in every run (catch-dest), '
+                  'and in the catchpt family (only catching nodes fail) every value-rewriting PostTransform of every other node must have run.',
              technique='TLC model checking of ZogExec + TLC trace validation of recorded real executions (Trace_Exec)', ref='5 C05'),
  'C09': dict(text='StructField(k) picks any remaining field, so the order-free invariants hold for every visit order in the model; every real case is executed under all n! '
                   'forced visit orders (observed through field events) and TLC compares the logged results of one case pairwise and with the order-free reference.',
@@ -28,11 +29,13 @@ CLAIMS = {
              technique='TLC model checking of ZogExec + TLC trace validation of recorded real executions (Trace_Exec)', ref='5 C03'),
  'C04': dict(text='C04 is a finite decision table (spec/Tab_C04.tla: node kind x Required/Default/NotNil x input class x mode x position, 1784 rows). TLC checks that the reference semantics obeys the literal '
                   'statement of C04 on every row (TableOK), model-checks the traversal machine on every row (C04_Machine), and emits every row; all rows are replayed on the real library and validated by TLC '
-                  '(required/not_nil bag, destination, recording tests show whether tests ran), with whitespace-padded present strings.',
+                  '(required/not_nil bag, destination, recording tests show whether tests ran), with whitespace-padded present strings. '
+                  'On every other Parse trace of the check (random trees; one-level records through form / query / env / zhttp JSON incl. key[] lists; empty JSON documents) TLC evaluates the required/not_nil bag and count and that, at and below every node whose input is absent, the destination is the default or untouched (AbsentDPP).',
              technique='TLC-checked decision table + TLC model checking of ZogExec on every row + TLC trace validation of all rows replayed on the real library', ref='5 C04, 3.8'),
  'C10': dict(text='TLC validates, on every logged real result, that each issue sits under the key equal to its path ($root for the empty path), that $first holds exactly the first issue recorded '
                   '(first issue event), the sanitizers, and lock-step that every field is resolved under KeyOf (source tag > zog tag > schema key; Validate: zog tag > key) at every depth, for Go maps, '
-                  'Validate and JSON documents with all tag combinations. Known findings D17/D24 are attributed by re-validating against the named specification variant.',
+                  'Validate and JSON documents with all tag combinations; every issue path must be a node path of the execution or an IssuePath override (NodePathsOf), also for 20-element slices, leaves six segments deep and undecodable nested documents. '
+                  'Known findings D17/D24 are attributed by re-validating against the named specification variant.',
              technique='TLC trace validation of recorded real executions (Trace_Exec: KeyOf/PathStr/$first/key=path) + TLC model checking of ZogExec', ref='5 C10'),
  'C12': dict(text='TLC checks C12_PTOnlyWhenClean and C12_CallbackArgs on the traversal machine; recording callbacks of the harness emit one event per invocation (callback id from ctx.Issue().Path, '
                   'argument class value/self-pointer/nil, value seen, ctx.Get snapshot) which TLC validates lock-step: order, count, timing (no issue exists), first error stops the rest and is reported at the node path (plain error, ZogIssue, error wrapping a ZogIssue). '
@@ -48,9 +51,10 @@ CLAIMS = {
              technique='TLC model checking of ZogPools + replay of TLC-emitted histories with differential probes + TLC trace validation of pool events', ref='5 C07, 3.5',
              note='Trusted: the projection of call results; sync.Pool modelled as a bag (per-P caches not modelled); GC disabled while tracing. Bounds: <=3 calls per history in the model (nested calls with <=2), 27 call kinds in the harness.'),
  'C08': dict(engine='ZogPools', text='TLC explores every interleaving of the pool operations of two goroutines (ExclusiveOwner, NoStaleRead). Goroutines run random calls concurrently on shared package-level schemas; the Get/Put events, '
-                  'ordered by a sequence number taken inside the ownership interval, are validated by TLC (Trace_Pools), every result is compared with its sequential result, and the same episodes run free under the Go race detector.',
+                  'ordered by a sequence number taken inside the ownership interval, are validated by TLC (Trace_Pools), every result is compared with its sequential result (and projected again at the end of the episode: what a caller keeps must not change), '
+                  'gated schedules force two calls to overlap at every pool-operation boundary (hooks as scheduler gates, at most two preemptions), and the same episodes run free under the Go race detector.',
              technique='TLC model checking of ZogPools with 2 goroutines + TLC trace validation of concurrent pool events + race detector stress with sequential oracle', ref='5 C08',
-             note='Data-race freedom under the Go memory model is outside TLA+: it is observed by the race detector on the executions driven. Schedules are sampled, not enumerated, on the real code.'),
+             note='Data-race freedom under the Go memory model is outside TLA+: it is observed by the race detector on the executions driven. Free-running schedules are sampled; the gated schedules enumerate the two-preemption interleavings of pairs of call kinds.'),
  'C16': dict(engine='ZogBuild', text='TLC explores all builder histories (Test/PostTransform/Pick/Omit/Extend/Merge) of bounded length over Go slices modelled with backing-array identity and checks Independent '
                   '(what every schema can reach = its hand-written equivalent); histories (exhaustive short ones from every initial capacity, TLC\'s trap history for shared slices, random long ones) are executed on the '
                   'real API and after EVERY operation every live schema is probed in Parse and Validate; TLC validates the observations against the ghost.',
@@ -62,7 +66,7 @@ CLAIMS = {
              technique='TLC-checked decision table + exhaustive replay of its rows on the real library with a math/big oracle, validated by TLC', ref='5 C18, 3.8',
              note='TLC contributes the enumeration, the table-level invariant and the row-by-row validation; the magnitudes are symbolic in TLA+ (32-bit integers) and membership of concrete values in the classes is trusted harness code.'),
  'C20': dict(engine='Tables', text='Every built-in test has its documented predicate written in TLA+ (spec/Tab_C20.tla) over small boundary domains; TLC enumerates every (test, parameter, subject) triple with its expected verdict '
-                  '(1271 rows), checks the table is a function, and recomputes the verdict of each of the ~3900 logged real executions (Parse, Validate, and negated through Not()).',
+                  '(about 1800 rows incl. NaN, deep membership, byte-class sweeps of the UUID grammar, instants centuries apart, slice tests beside a failing element), checks the table is a function, and recomputes the verdict of each logged real execution (Parse, Validate, and negated through Not()).',
              technique='TLC-enumerated predicate tables + exhaustive replay of every row on the real library, validated by TLC', ref='5 C20, 3.8',
              note='Email/UUID/URL/Match on token alphabets only; concretisation of symbolic subjects is trusted harness code.'),
  'C11': dict(engine='Tables', text='C11 is a finite catalogue (spec/Tab_C11.tla): every built-in test of every type, required/not_nil/coerce, invalid_json/invalid_form and custom schemas, crossed with test-level options, '
